@@ -1,6 +1,7 @@
 package props
 
 import (
+	"fmt"
 	"net/http"
 	"strings"
 
@@ -55,6 +56,20 @@ var aqAttrLists = map[string][]msg.ReqAttr{
 	"collide-swapped":  {{Name: "urn:custom:fmt", NameFormat: "role"}},
 }
 
+// aqSeps: characters a joined lookup key might use as separator. For each, the user shape "sep-names" holds two custom
+// attributes and the list "collide-sep:<i>" requests two (Name, NameFormat) pairs that are DIFFERENT from every attribute
+// the user has but whose join with that separator equals the join of one of them.
+var aqSeps = []string{"|", ":", "/", "#", " ", ",", ";", "=", "@", "+", "-", ".", "_", "~", "!"} // plain characters only: TAB and controls in signed attribute values are C04 / C18 matters
+
+func init() {
+	for i, c := range aqSeps {
+		aqAttrLists[fmt.Sprintf("collide-sep:%d", i)] = []msg.ReqAttr{
+			{Name: fmt.Sprintf("sepa%d", i), NameFormat: "int" + c + "urn:sep:f"},     // user has (sepa<i><c>int, urn:sep:f)
+			{Name: fmt.Sprintf("sepb%d", i) + c + "pre", NameFormat: "urn:sep:g"}, // user has (sepb<i>, pre<c>urn:sep:g)
+		}
+	}
+}
+
 func aqUser(shape string) *world.User {
 	u := &world.User{ID: "u-alice", Username: "alice", Email: "alice@example.com", FullName: "Alice Liddell", GivenName: "Alice", Surname: "Liddell"}
 	role := world.Custom{Name: "role", Friendly: "Role", Format: "urn:custom:fmt", Values: []string{"admin", "dev"}}
@@ -74,6 +89,13 @@ func aqUser(shape string) *world.User {
 		u.Custom = []world.Custom{{Name: "role", Format: "urn:custom:fmt", Values: nil}}
 	case "custom-named-email":
 		u.Custom = []world.Custom{{Name: "Email", Format: "urn:custom:fmt", Values: []string{"shadow@example.com"}}}
+	case "sep-names":
+		u.Custom = []world.Custom{role}
+		for i, c := range aqSeps {
+			u.Custom = append(u.Custom,
+				world.Custom{Name: fmt.Sprintf("sepa%d", i) + c + "int", Format: "urn:sep:f", Values: []string{fmt.Sprintf("secret-a%d", i)}},
+				world.Custom{Name: fmt.Sprintf("sepb%d", i), Format: "pre" + c + "urn:sep:g", Values: []string{fmt.Sprintf("secret-b%d", i)}})
+		}
 	default:
 		panic("aqUser: " + shape)
 	}
